@@ -48,6 +48,20 @@ def ssQuery (useLb : Bool) (M : α) (cands : List (Nat × α × α)) (o : SSObj 
     else ({ stored := some (k, (knnScan k useLb M cands).best) }, (knnScan k useLb M cands).best)
   | none => ({ stored := some (k, (knnScan k useLb M cands).best) }, (knnScan k useLb M cands).best)
 
+/-- `k = None`: every candidate is reported, with its distance if it qualifies (within the user bound; the
+lower-bound skip and the thresholded distance call both turn a non-qualifying candidate into infinity),
+sorted ascending (`np.argsort`) -/
+def allVal (useLb : Bool) (M : α) (c : Nat × α × α) : α :=
+  if useLb = true ∧ ¬ c.2.2 ≤ M then top
+  else if c.2.1 ≤ M then c.2.1 else top
+
+def knnAll (useLb : Bool) (M : α) (cands : List (Nat × α × α)) : List (α × Nat) :=
+  (cands.map fun c => (allVal useLb M c, c.1)).foldr insertSorted []
+
+/-- a query with `k = None`: the full ranking is returned and nothing re-usable is stored (`self.k = None`) -/
+def ssQueryAll (useLb : Bool) (M : α) (cands : List (Nat × α × α)) (_ : SSObj α) : SSObj α × List (α × Nat) :=
+  ({ stored := none }, knnAll useLb M cands)
+
 end
 
 end Dtai
